@@ -1,4 +1,5 @@
-\* non-vacuity: date_bin as shipped (walk from the origin, `n >= source`).  TLC must violate BinInv.
+\* non-vacuity: date_bin as it was before repair 5c4d63a (walk from the origin, `n >= source`) -- the deliberately
+\* broken mechanism.  TLC must violate BinInv.
 CONSTANTS
   Lo = 737425
   Hi = 737800
